@@ -16,6 +16,9 @@ package standard
 //@   valid self.handlingAltair ==> self.syncCommitteeDutiesProvider != nil && self.syncCommitteesSubscriber != nil && self.syncCommitteeMessenger != nil && self.syncCommitteeAggregator != nil && self.epochsPerSyncCommitteePeriod > 0
 //@   // established by New (parseAndCheckParameters rejects nil for these; the maps are made there)
 //@   valid self.chainTimeService != nil && self.scheduler != nil && self.attester != nil && self.validatingAccountsProvider != nil && self.attesterDutiesProvider != nil && self.proposerDutiesProvider != nil && self.beaconBlockProposer != nil && self.attestationAggregator != nil && self.beaconCommitteeSubscriber != nil && self.accountsRefresher != nil && self.blockToSlotSetter != nil && self.pendingAttestations != nil && self.subscriptionInfos != nil
+//@   // the chain's SECONDS_PER_SLOT as reported by the beacon node: a positive duration on every chain (the chain time
+//@   // service relies on the same)
+//@   valid self.slotDuration >= 0
 //@   confined activeValidators: after construction read and written only by the accounts refresher's periodic job (its run-time function and job function run on that job's goroutine and never overlap); not covered: New writes it once more after the tickers were started, a start-up window in which the refresher's first run-time computation may read it
 //@   confined lastBlockRoot, lastBlockEpoch, currentDutyDependentRoot, previousDutyDependentRoot: read and written only by HandleHeadEvent and its helper checkEventForReorg, which the events provider invokes sequentially on one goroutine
 //@
